@@ -117,6 +117,7 @@ def reset_global_state():
             del copyreg.dispatch_table[k]
     import warnings
 
+    sys.modules.pop("colorsys", None)  # (see _private_modules: nobody here imports it by name)
     if not _WARN:
         _WARN.update(obj=warnings.filters, content=list(warnings.filters))
     elif warnings.filters is not _WARN["obj"] or list(warnings.filters) != _WARN["content"]:
@@ -171,9 +172,57 @@ class Uncopyable:
         raise ValueError("this object cannot be copied")
 
 
+def _private_modules():
+    """Module objects that are NOT what an import of their name would give: one created on the spot, one loaded privately from
+    a stdlib source file without being registered. 'Modules are passed through' means these very objects."""
+    if "mods" not in _PRIV:
+        import importlib.util
+        import types
+
+        spec = importlib.util.find_spec("colorsys")
+        loaded = importlib.util.module_from_spec(spec)
+        spec.loader.exec_module(loaded)
+        sys.modules.pop("colorsys", None)
+        _PRIV["mods"] = (types.ModuleType("vf_module_created_on_the_spot"), loaded)
+    return _PRIV["mods"]
+
+
+_PRIV = {}
+
+
 def make_in(i):
     In = env()["In"]
-    return In(m=[math, sys, None][i % 3], v=[i])
+    # (a module held directly is passed through without any copying; inside a container it goes through the copy protocol)
+    return In(m=[math, sys, None, [_private_modules()[0]], {"k": [_private_modules()[1]]}][i % 5], v=[i])
+
+
+def modules_of(obj, seen=None, out=None):
+    """Every module object reachable from a value (through containers and spec instances)."""
+    import types
+
+    seen = set() if seen is None else seen
+    out = [] if out is None else out
+    if id(obj) in seen:
+        return out
+    seen.add(id(obj))
+    if isinstance(obj, types.ModuleType):
+        out.append(obj)
+    elif isinstance(obj, dict):
+        for v in obj.values():
+            modules_of(v, seen, out)
+    elif isinstance(obj, (list, tuple, set)):
+        for v in obj:
+            modules_of(v, seen, out)
+    elif hasattr(obj, "__spec_class__") and not isinstance(obj, type):
+        for v in vars(obj).values():
+            modules_of(v, seen, out)
+    return out
+
+
+def foreign_modules(result):
+    """Modules in a result that are none of the module objects the harness ever handed in (a re-imported or rebuilt module)."""
+    known = {id(m) for m in (math, sys) + _private_modules()}
+    return [m for m in modules_of(result) if id(m) not in known]
 
 
 def apply(cur, op):
@@ -238,8 +287,8 @@ def replay_history(ops):
     for op in ops:
         try:
             cur = apply(cur, op)
-        except (TypeError, ValueError, AttributeError, KeyError, IndexError):
-            pass
+        except (TypeError, ValueError, AttributeError, KeyError, IndexError, ImportError):
+            pass  # (an ImportError is reported by the checked run of the same op)
     return cur
 
 
@@ -275,6 +324,9 @@ def _run_seq(ctx, case):
             try:
                 nxt = apply(cur, op)
                 outcome = "ok"
+            except ImportError as e:
+                ctx.fail(f"seq|{op[0]}|raises:{type(e).__name__}", case, f"op {i} {op}: copying a value that holds a module tried to import it: {e!r}")
+                return
             except (TypeError, ValueError, AttributeError, KeyError, IndexError) as e:
                 nxt, outcome = cur, "raise"
                 if op[0] in MUST_SUCCEED:
@@ -288,6 +340,15 @@ def _run_seq(ctx, case):
         if w:
             ctx.fail(f"seq|{op[0]}|{outcome}|warning_filters_changed", case, f"after op {i} {op} ({outcome}): {w}")
             return
+        if "colorsys" in sys.modules:
+            ctx.fail(f"seq|{op[0]}|{outcome}|sys_modules_grew", case, f"after op {i} {op} ({outcome}): a privately loaded module was imported for real (sys.modules gained 'colorsys')")
+            sys.modules.pop("colorsys", None)
+            return
+        if outcome == "ok":
+            alien = foreign_modules(nxt)
+            if alien:
+                ctx.fail(f"seq|{op[0]}|module_not_passed_through", case, f"after op {i} {op}: the result holds module objects nobody handed in: {alien!r} (modules are passed through by identity)")
+                return
         ctx.count(f"seq:{op[0]}:{outcome}")
         # abort points: every executed library line of this op
         total = tr.count
